@@ -12,9 +12,10 @@ RULE = ("writer: boundary sweep chunk size {1,2,3,127,128,129,4095,4096,4097,655
         "through ChunkComposer.RunLoop, previous-header compression sweep, message sequences; reader: random legal chunkings from a "
         "python reference encoder (all four header formats, 1/2/3-byte basic headers, interleaved chunk streams, Set Chunk Size at "
         "any point, aggregate messages, extended absolute timestamps) plus truncations and byte mutations of them; the extracted "
-        "reference decoder (Coq) is compared with lal's reader on the legal streams; a case is non-trivial when the model output "
+        "reference decoder (Coq) is compared with lal's reader on the legal streams; MessagePacker: every signalling writer and ChunkAndWrite itself on one reused packer over body lengths around multiples of LocalChunkSize, csid/type/msid combinations, stream names up to 70000 bytes, transaction ids up to 2^62, decoded by the python reference reader and read back by ChunkComposer; a case is non-trivial when the model output "
         "is not an error and its (op, class, size class) key is new")
-ASSUMPTIONS = ["messages of 2^24-1 bytes are exercised in the thorough tier only",
+ASSUMPTIONS = ["flashVer / version strings of the tree are lal0.37.4 / 0,37,4 (constants of gen/c08.py; a version bump needs them updated)",
+               "messages of 2^24-1 bytes are exercised in the thorough tier only",
                "timestamp deltas in type 1/2 chunk headers below 0xFFFFFF (extended deltas are outside the property)",
                "the 4-byte field of a type 3 chunk repeats the message's absolute timestamp"]
 FULL_OUTPUT = True
@@ -384,6 +385,38 @@ def oracle(c, out):
             if any(s["abs"] for s in ss if s["key"] not in opened):
                 return (False, "an idle chunk stream keeps absTsFlag set")
             return (True, "")
+        if op == "c08.pk":
+            cmds = f[1].split("|")
+            exp = [pk_expected(c) for c in cmds]
+            if any(e is None for e in exp):
+                return None          # outside the domain (csid > 63 on the single chunk path, aggregate type, ...)
+            if "panic@" in out:
+                return (False, "MessagePacker panicked: " + out)
+            o = out.split(" ")
+            wires = o[0].split(",")
+            if len(wires) != len(cmds):
+                return (False, "packer produced %d messages for %d writers" % (len(wires), len(cmds)))
+            for c, e, w in zip(cmds, exp, wires):
+                try:
+                    got, _, opened = ref_decode(tok_bytes(w), 4096, strict=False)
+                except (Truncated, NonConforming) as ex:
+                    return (False, "reference reader rejects what `%s` wrote: %r" % (short_cmd(c), ex))
+                if opened or len(got) != 1:
+                    return (False, "`%s` wrote %d messages (open: %r)" % (short_cmd(c), len(got), sorted(opened)))
+                g = got[0]
+                if g[:4] != (e[0], e[1], e[2], 0):
+                    return (False, "`%s` is on the wire as (csid,type,msid,ts)=%r, must be %r" % (short_cmd(c), g[:4], (e[0], e[1], e[2], 0)))
+                if g[4] != e[3]:
+                    return (False, "`%s`: body on the wire differs (%d bytes, expected %d)" % (short_cmd(c), len(g[4]), len(e[3])))
+            # lal's own reader on the whole session (its peer was told chunk size 4096)
+            if all(e[1] != T_SCS or e[3] == (4096).to_bytes(4, "big") for e in exp):
+                err, ch, n, ms, ss = parse_rd(o[1:])
+                why = same_msgs(ms, [(e[0], e[1], e[2], 0, e[3]) for e in exp])
+                if why:
+                    return (False, "lal cannot read what its MessagePacker wrote: " + why)
+                if err != "eof" or any(s_["buf"] or s_["abs"] for s_ in ss):
+                    return (False, "lal's reader ends with %s / not idle on its MessagePacker's output" % err)
+            return (True, "")
         if op == "c08.sch":
             csid, ln, ty, msid = [num(x) for x in f[1:5]]
             if not (2 <= csid <= 63 and ln <= 4096 and ty < 256 and msid < (1 << 32)) or ty in (T_SCS, T_AGG):
@@ -406,6 +439,129 @@ def nontrivial(c, out):
     f = c.line.split(" ")
     return "%s|%s|%d" % (f[0], c.cls, len(c.line).bit_length())
 
+
+
+# ---------------------------------------------------------------- MessagePacker: what each writer must put on the wire
+# AMF0 (amf0-file-format-specification) and the RTMP 1.0 command / control message layouts (5.4, 7.1.7, 7.2)
+import struct
+FLASH_PUSH = b"FMLE/3.0 (compatible; lal0.37.4)"      # base.LalRtmpPushSessionConnectVersion of the tree
+FLASH_PULL = b"LNX 9,0,124,2"
+RESULT_VERSION = b"0,37,4"                             # base.LalRtmpConnectResultVersion
+
+
+def a_str(b):
+    return (b"\x02" + struct.pack(">H", len(b)) if len(b) < 65536 else b"\x0c" + struct.pack(">I", len(b))) + b
+
+
+def a_num(x):
+    return b"\x00" + struct.pack(">d", float(x))
+
+
+def a_obj(pairs):
+    out = b"\x03"
+    for k, v in pairs:
+        out += struct.pack(">H", len(k)) + k
+        out += a_str(v) if isinstance(v, bytes) else (b"\x01" + bytes([1 if v else 0]) if isinstance(v, bool) else a_num(v))
+    return out + b"\x00\x00\x09"
+
+
+def short_cmd(c):
+    return c if len(c) < 60 else c[:57] + "..."
+
+
+def pk_expected(cmd):
+    """(csid, type id, message stream id, body) the writer must produce; None = outside the property's domain"""
+    f = cmd.split(":")
+    n = lambda i: num(f[i])
+    b = lambda i: tok_bytes(f[i])
+    k = f[0]
+    u32 = lambda v: (v & 0xFFFFFFFF).to_bytes(4, "big")
+    if k == "cs":
+        return (2, 1, 0, u32(n(1)))
+    if k == "was":
+        return (2, 5, 0, u32(n(1)))
+    if k == "pbw":
+        return (2, 6, 0, u32(n(1)) + bytes([n(2) & 0xFF]))
+    if k == "connect":
+        if b(3) != (FLASH_PUSH if f[4] == "1" else FLASH_PULL):
+            return None
+        return (3, 20, 0, a_str(b"connect") + a_num(1) + a_obj([(b"app", b(1)), (b"type", b"nonprivate"), (b"flashVer", b(3)),
+                                                                 (b"fpad", False), (b"tcUrl", b(2))]))
+    if k == "cres":
+        if b(3) != RESULT_VERSION:
+            return None
+        return (3, 20, 0, a_str(b"_result") + a_num(n(1)) + a_obj([(b"fmsVer", b"FMS/3,0,1,123"), (b"capabilities", 31)])
+                + a_obj([(b"level", b"status"), (b"code", b"NetConnection.Connect.Success"), (b"description", b"Connection succeeded."),
+                         (b"objectEncoding", n(2)), (b"version", b(3))]))
+    if k == "cstream":
+        return (3, 20, 0, a_str(b"createStream") + a_num(2) + b"\x05")
+    if k == "csres":
+        return (3, 20, 0, a_str(b"_result") + a_num(n(1)) + b"\x05" + a_num(1))
+    if k == "play":
+        return (5, 20, n(2), a_str(b"play") + a_num(3) + b"\x05" + a_str(b(1)))
+    if k == "publish":
+        return (5, 20, n(2), a_str(b"publish") + a_num(3) + b"\x05" + a_str(b(1)) + a_str(b"live"))
+    if k in ("ospub", "osplay"):
+        code, desc = (b"NetStream.Publish.Start", b"Start publishing") if k == "ospub" else (b"NetStream.Play.Start", b"Start live")
+        return (5, 20, n(1), a_str(b"onStatus") + a_num(0) + b"\x05" + a_obj([(b"level", b"status"), (b"code", code), (b"description", desc)]))
+    if k in ("rec", "begin", "pingreq", "pingresp"):
+        return (2, 4, 0, {"rec": 4, "begin": 0, "pingreq": 6, "pingresp": 7}[k].to_bytes(2, "big") + u32(n(1)))
+    if k == "ack":
+        return (2, 3, 0, u32(n(1)))
+    if k == "raw":
+        csid, ty, msid, body = n(1), n(2), n(3), b(4)
+        if not (2 <= csid <= 63 and ty < 256 and msid < (1 << 32)) or ty in (T_AGG,) or (ty == T_SCS and len(body) != 4):
+            return None
+        return (csid, ty, msid, body)
+    return None
+
+
+def gen_packer(tier, rng):
+    thorough = tier == "thorough"
+    fvp, fvl, ver = hex_tok(FLASH_PUSH), hex_tok(FLASH_PULL), hex_tok(RESULT_VERSION)
+    C = 4096
+    # ChunkAndWrite itself: body lengths around every multiple of the chunk size x csid x type x msid
+    combos = [(cs, ty, ms) for cs in (2, 3, 5, 63) for ty in (20, 18, 9, 4) for ms in (0, 1, 5, 0xFFFFFFFF)]
+    lens = [0, 1, 2, C - 1, C, C + 1, C + 2, 2 * C - 1, 2 * C, 2 * C + 1, 3 * C, 3 * C + 1] + ([16 * C, 16 * C + 1, 70000] if thorough else [])
+    k = 0
+    for ln in lens:
+        for j in range(len(combos) if thorough else 6):
+            cs, ty, ms = combos[(k * 7 + j * 5) % len(combos)]
+            k += 1
+            yield Case("c08.pk raw:%d:%d:%d:%s" % (cs, ty, ms, payload_tok(rng, ln)), cls="pk-raw")
+    for cs in (0, 1, 64, 65, 319, 320, 65599):
+        yield Case("c08.pk raw:%d:20:1:r10.1|raw:%d:20:1:r5000.2" % (cs, cs), cls="pk-raw-csid")
+    # play / publish: stream names (with url parameters) around the chunk size, the AMF0 long-string limit
+    for msid in (1, 0, 2, 0xFFFFFFFF):
+        for nlen in [0, 1, 10, C - 21, C - 20, C - 19, C - 31, C - 30, C - 29, 2 * C - 20, 2 * C - 19, 5000] + \
+                    ([65535, 65536, 70000] if (thorough or msid == 1) else []):
+            name = payload_tok(rng, nlen)
+            yield Case("c08.pk play:%s:%d" % (name, msid), cls="pk-play")
+            yield Case("c08.pk publish:%s:%d" % (name, msid), cls="pk-publish")
+    # connect: long app / tcUrl
+    for nlen in [0, 4, C - 140, C - 120, C - 100, C, 2 * C, 65536]:
+        a = payload_tok(rng, nlen)
+        yield Case("c08.pk connect:%s:72746d70:%s:1" % (a, fvp), cls="pk-connect")
+        yield Case("c08.pk connect:6c697665:%s:%s:0" % (a, fvl), cls="pk-connect")
+    # numbers: transaction ids, object encoding, control values
+    for v in [0, 1, 2, 3, 4, 5, 31, 255, 65536, (1 << 31) - 1, 1 << 31, (1 << 32) - 1, (1 << 53) + 1, (1 << 62) - 1]:
+        yield Case("c08.pk cres:%d:%d:%s|csres:%d" % (v, [0, 3, v][v % 3], ver, v), cls="pk-result")
+        w = v & 0xFFFFFFFF
+        yield Case("c08.pk was:%d|pbw:%d:%d|rec:%d|begin:%d|pingreq:%d|ack:%d|pingresp:%d|ospub:%d|osplay:%d" % (w, w, v % 3, w, w, w, w, w, w, w),
+                   cls="pk-control")
+        yield Case("c08.pk cs:%d" % w, cls="pk-control")
+    # whole sessions on one packer (the buffer is reused and has grown)
+    for i in range(40 if not thorough else 400):
+        big = payload_tok(rng, rng.choice([10, 100, 4000, 4076, 4077, 5000, 9000]))
+        small = payload_tok(rng, rng.choice([1, 8, 30]))
+        if i % 2 == 0:
+            line = "cs:4096|connect:%s:%s:%s:%d|cstream|%s" % (small, payload_tok(rng, rng.choice([20, 200, 4500])), fvp if i % 4 == 0 else fvl,
+                                                                1 if i % 4 == 0 else 0,
+                                                                ("publish:%s:1" if i % 4 == 0 else "play:%s:1") % big)
+        else:
+            line = "was:5000000|pbw:5000000:2|cs:4096|cres:1:%d:%s|csres:%d|begin:1|%s|raw:5:18:1:%s" % (
+                rng.choice([0, 3]), ver, rng.choice([2, 4]), "ospub:1" if i % 4 == 1 else "rec:1|osplay:1", big)
+        yield Case("c08.pk " + line, cls="pk-session")
 
 # ---------------------------------------------------------------- generators
 CHUNKS = [1, 2, 3, 127, 128, 129, 4095, 4096, 4097, 65536]
@@ -550,6 +706,7 @@ def gen_cases(tier, rng):
     # ---- hand-made reader corner cases
     for line in READER_CORNERS:
         yield Case(line, cls="rd-corner")
+    yield from gen_packer(tier, rng)
     if thorough:
         for n in [(1 << 24) - 1, (1 << 24) - 2]:
             for c in [4096, 65536]:
@@ -601,6 +758,16 @@ def neighbors(c, rng):
         for _ in range(200):
             chunk0, data, _ = random_legal_stream(rng)
             yield "c08.rd %d 0 %s" % (chunk0, hex_tok(data))
+    elif f[0] == "c08.pk":
+        for cmd in f[1].split("|")[:4]:
+            g = cmd.split(":")
+            if g[0] in ("play", "publish"):
+                for nlen in (10, 4070, 4080, 5000, 9000):
+                    for msid in (0, 1, 7):
+                        yield "c08.pk %s:r%d.1:%d" % (g[0], nlen, msid)
+            if g[0] == "raw":
+                for nlen in (10, 4096, 4097, 9000):
+                    yield "c08.pk raw:%s:%s:%s:r%d.1" % (g[1], g[2], g[3], nlen)
     elif f[0] == "c08.w2c":
         for ts in TSS:
             for csid in CSIDS:
